@@ -3,3 +3,6 @@ package verifrt
 import "time"
 
 func timeAfter(seconds int) <-chan time.Time { return time.After(time.Duration(seconds) * time.Second) }
+
+func nativeQuiesce() { time.Sleep(100 * time.Millisecond) }
+func nativeYield()   { time.Sleep(time.Millisecond) }
